@@ -125,11 +125,13 @@ theorem outputDirs_triples (vid : Vid) (n : Name) (pty : QTy) (dirs : List Dir) 
   | nil => rfl
   | cons d rest ih => cases d <;> simp_all [outputDirs, dirOuts, List.filterMap_cons]
 
-theorem outputDirs_names (vid : Vid) (n : Name) (pty : QTy) (dirs : List Dir) :
-    (outputDirs vid n pty dirs).map (·.name) =
-      dirs.filterMap fun d => match d with | .output o => some o | _ => none := by
+theorem outputDirs_names (vid : Vid) (n : Name) (pty : QTy) (dirs : List Dir) (rest : List QField) :
+    (outputDirs vid n pty dirs).map (·.name) ++ fieldsOutputNames rest =
+      fieldsOutputNames (.prop n dirs :: rest) := by
+  simp only [fieldsOutputNames]
+  congr 1
   induction dirs with
   | nil => rfl
-  | cons d rest ih => cases d <;> simp_all [outputDirs, List.filterMap_cons]
+  | cons d ds ih => cases d <;> simp_all [outputDirs, List.filterMap_cons]
 
 end TF.InterpSpec
